@@ -441,7 +441,9 @@ inductive Act where
   | run (preferWork : Bool)
   | ack (ok : Bool)
   | shutdown
-  /-- another peer uses the shared allocator -/
+  /-- somebody else calls the shared allocator: another peer's queue, or -- while two queues of the
+      SAME peer overlap (C17 finding `overlap-shutting-down`) -- the other queue of this peer
+      (`opPeer op = s.peer`; in particular its exit does `ReleasePeerMemory(peer)`) -/
   | env (op : GS.Alloc.Op)
 deriving Repr
 
@@ -456,7 +458,7 @@ def step (pick : GS.Alloc.Pick) (s : State) : Act → State
   | .run pw => s.run pick pw
   | .ack ok => s.ack pick ok
   | .shutdown => { s with done := true }
-  | .env op => if opPeer op == s.peer then s else (s.allocStep pick op).1
+  | .env op => (s.allocStep pick op).1
 
 def runActs (pick : GS.Alloc.Pick) (s : State) (acts : List Act) : State := acts.foldl (step pick) s
 
